@@ -4,6 +4,7 @@ import (
 	"fmt"
 	"reflect"
 	"regexp"
+	"sort"
 	"strings"
 )
 
@@ -71,6 +72,8 @@ func leafCorruptions(s *Spec, native bool) [][2]any {
 	case KPattern:
 		if !native {
 			add("(", "wrong type")
+		} else {
+			add((*regexp.Regexp)(nil), "missing pattern")
 		}
 	case KIntEnum:
 		if !native {
@@ -371,7 +374,9 @@ func NativeCorruptions(spec *Spec, native any) []Corruption {
 			if v.Kind() != reflect.Map {
 				return
 			}
-			for _, k := range v.MapKeys() {
+			keys := v.MapKeys()
+			sort.Slice(keys, func(a, b int) bool { return fmt.Sprint(keys[a].Interface()) < fmt.Sprint(keys[b].Interface()) })
+			for _, k := range keys {
 				k := k
 				walk(s.Val, v.MapIndex(k), cp(path, pathKey(k.Interface())), func(with reflect.Value) any {
 					n := reflect.MakeMap(v.Type())
